@@ -33,6 +33,8 @@ static unsigned long long vin_i(char const *name, unsigned i)
 #define ASSUME(c) do { if (!(c)) { printf("ASSUME-FALSE %s\n", #c); exit(0); } } while (0)
 #define CHECK(c, msg) do { if (!(c)) { printf("REPLAY-FAIL %s\n", msg); exit(1); } } while (0)
 #define REACHED() ((void)0)
+/* an object CBMC leaves nondeterministic: the native replay fills it with a pattern no correct run produces */
+#define POISON(obj) memset(&(obj), 0xA5, sizeof(obj))
 #else
 #define NDX_(T) nondet_##T
 #define IN(T, name) T NDX_(T)(void); T name = NDX_(T)()
@@ -41,6 +43,7 @@ static unsigned long long vin_i(char const *name, unsigned i)
 #define IN_F32(name) float nondet_float(void); float name = nondet_float()
 #define ASSUME(c) __CPROVER_assume(c)
 #define CHECK(c, msg) __CPROVER_assert((c), msg)
+#define POISON(obj) ((void)0)
 #ifdef WITNESS
 #define REACHED() __CPROVER_assert(0, "witness-reached")
 #else
